@@ -141,7 +141,7 @@ pub open spec fn step(s: Seq<u8>) -> Step {
         r is Ok <==> length <= MIB(),                                               // [C05.limit_is_1MiB]
 //@end
 
-//@fn protocol/src/codec.rs :: Encoder<Frame> for MessageCodec :: encode [props=C05]
+//@fn protocol/src/codec.rs :: Encoder<Frame> for MessageCodec :: encode [props=C05 C11]
     ensures
         body(item).len() > MIB() ==> r is Err && final(dst)@ == old(dst)@,          // [C05.encoder_refuses_over_1MiB]
         r is Ok ==> final(dst)@ =~= old(dst)@ + wire(item),                         // [C05.wire_format]
